@@ -95,7 +95,9 @@ SCENARIOS = {
         aprofiles=[_ap([1, 1], aff='web', prio=5, limits={'rack': 1}),
                    _ap([1, 1], aff='db', prio=6, limits={'rack': 2, 'pod': 2}),
                    _ap([1, 1], aff='kv', prio=4, limits={'pod': 1}),
-                   _ap([1, 1], aff='low', prio=1)],
+                   _ap([1, 1], aff='low', prio=1),
+                   # the boundary value: a limit of 0 on a level means "nowhere"
+                   _ap([1, 1], aff='nil', prio=7, limits={'rack': 0})],
         groups={}, apps=['a1', 'a2', 'a3', 'a4', 'a5', 'a6']),
     # mixed sizes: an eviction that does not help (the victim's server stays too full)
     # followed by one that does, within one rack limit
